@@ -276,7 +276,8 @@ theorem numRules_noPanic (e : Ext) (g : String) (w : String) : numRules e g ≠ 
   repeat' split
   all_goals simp
 
-theorem stringValidate_noPanic (v : Option Validate) (w : String) : stringValidate v ≠ .panic w := by
+theorem stringValidate_noPanic (v : Option Validate) (own : Bool) (w : String) :
+    stringValidate v own ≠ .panic w := by
   unfold stringValidate
   repeat' split
   all_goals simp
@@ -302,7 +303,7 @@ theorem stringKind_noPanic (like : Bool) (k : Option J5Sum) (w : String) :
 theorem buildString_noPanic (e : Ext) (key : Option KeySum) (w : String) :
     buildString e key ≠ .panic w := by
   unfold buildString
-  apply bind_noPanic (stringValidate_noPanic _)
+  apply bind_noPanic (stringValidate_noPanic _ _)
   intro a _
   apply bind_noPanic (stringForeignKey_noPanic _ _ _)
   intro f2 _
@@ -597,21 +598,18 @@ theorem buildProperty_spec (ds : DescSet) (reg : Reg) (f : FieldD) (hreg : RegOK
   · apply bind_noPanic hnp
     intro a ha
     obtain ⟨kind, t, e, key, mk⟩ := a
-    exact map_noPanic (buildSchema_spec ds reg kind t e key hreg hlk (hplan _ _ _ _ _ ha)).1
+    apply bind_noPanic (buildSchema_spec ds reg kind t e key hreg hlk (hplan _ _ _ _ _ ha)).1
+    intro b _ w
+    split <;> simp
   · intro prop b h
-    obtain ⟨⟨kind, t, e, key, mk⟩, ha, h2⟩ := bind_eq_ok h
-    obtain ⟨b', hb', hx⟩ := map_eq_ok h2
-    cases hx
+    obtain ⟨kind, t, e, key, mk, ha, hb', _, _⟩ := buildProperty_ok h
     exact (buildSchema_spec ds reg kind t e key hreg hlk (hplan _ _ _ _ _ ha)).2 b hb'
 
 /-- the message pushed by a field owns its name after the field's updates -/
 theorem buildProperty_push_owns (ds : DescSet) (reg : Reg) (f : FieldD) (prop : RProp) (b : Built)
     (m : Msg) (h : buildProperty ds reg f = .ok (prop, b)) (hp : b.push = some m) :
     Owns (reg.applyAll b.ops) m.pkg m.split m.full := by
-  unfold buildProperty at h
-  obtain ⟨⟨kind, t, e, key, mk⟩, _, h2⟩ := bind_eq_ok h
-  obtain ⟨b', hb, hx⟩ := map_eq_ok h2
-  cases hx
+  obtain ⟨kind, t, e, key, mk, _, hb, _, _⟩ := buildProperty_ok h
   unfold buildSchema at hb
   split at hb
   · split at hb
